@@ -905,3 +905,87 @@ TWINS["C10_twin_predicate_reordered"] = ("C10", [(H, """            if isinstanc
                 continue  # module docstring
             elif child.module == "__future__" if isinstance(child, ast.ImportFrom) else False:
                 continue""")])
+
+# ------------------------------------------------------------------------- C03
+SEEDS["C03_bfloat16_not_float"] = ("C03", [(A, "floats = float8 + [_bfloat16, _float16, _float32, _float64]", "floats = float8 + [_float16, _float32, _float64]")], "C03.1")
+SEEDS["C03_substring_match"] = ("C03", [(A, "                    in_dtypes = dtype == cls_dtype", "                    in_dtypes = dtype in cls_dtype")], "C03.3")
+SEEDS["C03_real_without_uints"] = ("C03", [(A, 'Real = _make_dtype(floats + uints + ints, "Real")', 'Real = _make_dtype(floats + ints, "Real")')], "C03.2")
+SEEDS["C03_classname_typo"] = ("C03", [(A, 'UInt16 = _make_dtype(_uint16, "UInt16")', 'UInt16 = _make_dtype(_uint16, "Uint16")')], "C03.1")
+SEEDS["C03_precision_wrong_string"] = ("C03", [(A, '_int16 = "int16"', '_int16 = "int32"')], "C03.1")
+SEEDS["C03_num_with_bools"] = ("C03", [(A, 'Num = _make_dtype(uints + ints + floats + complexes, "Num")', 'Num = _make_dtype(bools + uints + ints + floats + complexes, "Num")')], "C03.2")
+SEEDS["C03_integer_only_signed"] = ("C03", [(A, 'Integer = _make_dtype(uints + ints, "Integer")', 'Integer = _make_dtype(ints, "Integer")')], "C03.2")
+SEEDS["C03_int_contains_uint8"] = ("C03", [(A, "ints = [_int2, _int4, _int8, _int16, _int32, _int64]", "ints = [_int2, _int4, _int8, _int16, _int32, _int64, _uint8]")], "C03.1")
+SEEDS["C03_startswith_match"] = ("C03", [(A, "                    in_dtypes = dtype == cls_dtype", "                    in_dtypes = dtype.startswith(cls_dtype)")], "C03.3")
+SEEDS["C03_miss_returns_empty"] = ("C03", [(A, """                if len(cls.dtypes) == 1:
+                    return f"this array has dtype {dtype}, not {cls.dtypes[0]} as expected by the type hint"  # noqa: E501""", """                if len(cls.dtypes) == 1:
+                    return \"\"""")], "C03.3")
+SEEDS["C03_user_str_not_wrapped"] = ("C03", [(A, """        if isinstance(dtypes, (str, re.Pattern)):
+            dtypes = (dtypes,)
+        elif dtypes is not _any_dtype:""", """        if isinstance(dtypes, re.Pattern):
+            dtypes = (dtypes,)
+        elif dtypes is not _any_dtype:""")], "C03.4")
+SEEDS["C03_export_missing"] = ("C03", [(I, """        Float64 as Float64,
+        Inexact as Inexact,
+        Int as Int,
+        Int2 as Int2,
+        Int4 as Int4,
+        Int8 as Int8,
+        Int16 as Int16,
+        Int32 as Int32,
+        Int64 as Int64,
+        Integer as Integer,
+        Key as Key,
+        Num as Num,
+        Real as Real,
+        Shaped as Shaped,""", """        Float64 as Float64,
+        Inexact as Inexact,
+        Int as Int,
+        Int4 as Int4,
+        Int8 as Int8,
+        Int16 as Int16,
+        Int32 as Int32,
+        Int64 as Int64,
+        Integer as Integer,
+        Key as Key,
+        Num as Num,
+        Real as Real,
+        Shaped as Shaped,""")], "C03.1")
+SEEDS["C03_inexact_without_complex"] = ("C03", [(A, 'Inexact = _make_dtype(floats + complexes, "Inexact")', 'Inexact = _make_dtype(floats, "Inexact")')], "C03.2")
+SEEDS["C03_docs_promise_key_is_num"] = ("C03", [(DOC, "    - PRNG key: `Key`\n", ""), (DOC, "        - Any floating, integer, or unsigned integer: `Real`.", "        - Any floating, integer, or unsigned integer: `Real`.\n        - PRNG key: `Key`")], "C03.2")
+TWINS["C03_twin_tables_as_tuples"] = ("C03", [(A, "complexes = [_complex64, _complex128]", "complexes = [_complex128, _complex64]")])
+TWINS["C03_twin_real_reordered"] = ("C03", [(A, 'Real = _make_dtype(floats + uints + ints, "Real")', 'Real = _make_dtype(ints + uints + floats, "Real")')])
+
+# ------------------------------------------------------------------------- C20
+SEEDS["C20_reducer_not_registered"] = ("C20", [(A, "copyreg.pickle(_MetaAbstractArray, _pickle_array_annotation)\n", "")], "C20.1")
+SEEDS["C20_reducer_replays_dtypes"] = ("C20", [(A, "return x.dtype.__getitem__, (x._getitem_args,)", "return _rebuild, (x.dtype, x.array_type, x.dim_str, x.dtypes)")], "C20.2")
+SEEDS["C20_replays_merged_fields"] = ("C20", [(A, "return x.dtype.__getitem__, (x._getitem_args,)", "return x.dtype.__getitem__, ((x.array_type, x.dim_str),)")], "C20.3")
+SEEDS["C20_getitem_args_after_rebind"] = ("C20", [(A, "                _getitem_args=(x, orig_dim_str),", "                _getitem_args=(array_type, dim_str),")], "C20.3")
+SEEDS["C20_category_module_not_jaxtyping"] = ("C20", [(A, """    if getattr(typing, "GENERATING_DOCUMENTATION", "") in {"", "jaxtyping"}:
+        _Cls.__module__ = "jaxtyping"
+    else:
+        _Cls.__module__ = "builtins\"""", """    _Cls.__module__ = "builtins\"""")], "C20.4")
+SEEDS["C20_classname_typo"] = ("C20", [(A, 'UInt16 = _make_dtype(_uint16, "UInt16")', 'UInt16 = _make_dtype(_uint16, "Uint16")')], "C20.4")
+SEEDS["C10_generic_visit_overridden"] = ("C10", [(H, """    def visit_ClassDef(self, node: ast.ClassDef):""", """    def generic_visit(self, node):
+        for field in ("body", "orelse", "finalbody", "handlers"):
+            for child in getattr(node, field, ()):
+                if isinstance(child, ast.AST):
+                    self.visit(child)
+        return node
+
+    def visit_ClassDef(self, node: ast.ClassDef):""")], "C10.1")
+SEEDS["C10_docstring_truthiness"] = ("C10", [(H, """        for i, child in enumerate(node.body):
+            if isinstance(child, ast.ImportFrom) and child.module == "__future__":""", """        has_doc = 1 if ast.get_docstring(node) else 0
+        for i, child in enumerate(node.body):
+            if i < has_doc:
+                continue
+            if isinstance(child, ast.ImportFrom) and child.module == "__future__":""")], "C10.2")
+SEEDS["C19_decoration_time_switch"] = ("C19", [(D, """            full_fn = _apply_typechecker(typechecker, full_fn)
+            param_fn = _apply_typechecker(typechecker, param_fn)""", """            if not config.jaxtyping_disable:
+                full_fn = _apply_typechecker(typechecker, full_fn)
+                param_fn = _apply_typechecker(typechecker, param_fn)""")], "C19.1")
+SEEDS["C13_rollback_deletes_only_new_keys"] = ("C13", [(S, """                memo.clear()
+                memo.update(new_memo)""", """                for name in [name for name in memo if name not in new_memo]:
+                    del memo[name]""")], "C13.1")
+SEEDS["C04_rollback_deletes_only_new_keys"] = ("C04", [(S, """                memo.clear()
+                memo.update(new_memo)""", """                for name in [name for name in memo if name not in new_memo]:
+                    del memo[name]""")], "C04.4")
